@@ -128,6 +128,9 @@ func (p *Point) skippedBy(t TableDef) bool {
 // t3 filters on the other dimension, so the tables of one stream skip different entries.
 var tableT3 = TableDef{Name: "t3", SQL: "SELECT SUM(v) AS v FROM inbound WHERE g = 'y' GROUP BY d, period(2s)", Where: "y", Dim: "g", ResS: 2}
 
+// t4 groups by the attempt id: one row per insert, every row of the same encoded size.
+var tableT4 = TableDef{Name: "t4", SQL: "SELECT SUM(v) AS v FROM inbound GROUP BY a, period(1s)"}
+
 func genPoint(r *hk.Rng, maxL int) *Point {
 	p := &Point{G: hk.Pick(r, []string{"x", "x", "y"}), D: hk.Pick(r, []string{"p", "p", "p", "q", "q"}), TS: r.Intn(6)}
 	switch c := r.Intn(20); {
@@ -200,7 +203,7 @@ func genDBCfg(r *hk.Rng) DBCfg {
 	}
 }
 
-func genScript(r *hk.Rng, maxOps int, fanout int, rounds int) Script {
+func genScript(r *hk.Rng, maxOps int, fanout int, rounds int, sorted bool) Script {
 	sc := Script{Tables: tableDefs(r.Chance(2, 3))}
 	sc.DB = genDBCfg(hk.Derive(r.Next(), 77))
 	if r.Chance(1, 4) {
@@ -210,6 +213,9 @@ func genScript(r *hk.Rng, maxOps int, fanout int, rounds int) Script {
 		sc.TimedFlushMs = r.Range(2, 8)
 	}
 	n := r.Range(4, maxOps)
+	if sorted && n > 5 {
+		n = 5 // leave room (value encoding) for the restart motif below
+	}
 	tbl := func() string { return sc.Tables[r.Intn(len(sc.Tables))].Name }
 	maxL := 2
 	if r.Chance(1, 4) {
@@ -241,7 +247,11 @@ func genScript(r *hk.Rng, maxOps int, fanout int, rounds int) Script {
 			{Kind: "insert", P: genPoint(r, maxL)}}, sc.Steps...)
 		inserts += 2
 	}
-	switch r.Intn(6) {
+	motif := r.Intn(6)
+	if sorted {
+		motif = -1
+	}
+	switch motif {
 	case 0:
 		// skip-heavy: WHERE-filtered points followed by flushes of the filtering table (offset-file path)
 		sc.Tables = tableDefs(true)
@@ -256,6 +266,20 @@ func genScript(r *hk.Rng, maxOps int, fanout int, rounds int) Script {
 			inserts++
 		}
 		sc.Steps = append(sc.Steps, Step{Kind: "sleep", Ms: 80})
+	}
+	if sorted {
+		// sorted flushes over untouched rows across restarts: t4 has one row per insert (all of
+		// the same encoded size) and is the first table, so it is the one whose turn it is to sort
+		// at the first forced flush / Close of every process (DBOpts.MaxMemoryRatio > 0); every
+		// later round inserts only NEW keys, so the rows already in the file are passed through
+		// the sorting writer untouched by the memstore
+		sc.Tables = append([]TableDef{tableT4}, sc.Tables...)
+		pt := func() *Point { return &Point{G: hk.Pick(r, []string{"x", "y"}), D: "p", TS: r.Intn(6)} }
+		sc.Steps = append(sc.Steps,
+			Step{Kind: "insert", P: pt()}, Step{Kind: "insert", P: pt()}, Step{Kind: "close"},
+			Step{Kind: "insert", P: pt()}, Step{Kind: "close"},
+			Step{Kind: "insert", P: pt()}, Step{Kind: "flush", Table: "t4"})
+		inserts += 4
 	}
 	sc.Steps = append(sc.Steps, Step{Kind: "flushNow", Table: tbl()})
 	// keep the value encoding exact: shrink arrays, then drop inserts, until it fits
